@@ -74,6 +74,10 @@ type Job struct {
 	Harness string
 	Args    []int
 	Cfg     JobConfig
+	Prefix  []int // DFS choices fixed for this job (work splitting); nil = whole tree
+	// WantWork reports whether idle workers are waiting; Spawn hands a sub-tree to them.
+	WantWork func() bool   `json:"-"`
+	Spawn    func(job Job) `json:"-"`
 }
 
 type JobResult struct {
@@ -82,6 +86,7 @@ type JobResult struct {
 	Covers       map[string]*CoverHit
 	Stats        PathStats
 	Solver       SolverStats
+	IntSolver    SolverStats
 	Functions    []string
 	Models       []string
 	Wall         float64
@@ -119,6 +124,10 @@ func NewInterp(p *Program, solverKind string, cfg *JobConfig, timeoutMs int) (*I
 		mergeBlacklist: map[*ssa.BasicBlock]int{},
 		qSites: map[string]int{},
 	}
+	if is, err := NewSolver(solverKind, timeoutMs); err == nil {
+		is.IntMode = true
+		in.isolver = is
+	}
 	in.resetPath()
 	return in, nil
 }
@@ -149,6 +158,10 @@ func (in *Interp) resetPath() {
 	in.pending = nil
 	in.choiceLog = nil
 	in.mapRot = -1
+	in.bounds = nil
+	// merge decisions must be a deterministic function of the path prefix (DFS re-execution and
+	// work splitting replay choice sequences), so the fallback bookkeeping is per path
+	in.mergeBlacklist = map[*ssa.BasicBlock]int{}
 	in.pathViolated = false
 	in.model = map[string]uint64{}
 	in.modelMemo = map[int]uint64{}
@@ -219,6 +232,11 @@ func RunJob(p *Program, job Job, solverKind string, timeoutMs int) (res JobResul
 	}
 	defer in.solver.Close()
 	defer func() {
+		if in.isolver != nil {
+			in.isolver.Close()
+		}
+	}()
+	defer func() {
 		if r := recover(); r != nil {
 			res.EngineError = fmt.Sprintf("engine panic: %v\n%s", r, debug.Stack())
 		}
@@ -226,6 +244,9 @@ func RunJob(p *Program, job Job, solverKind string, timeoutMs int) (res JobResul
 		res.Covers = in.Covers
 		res.Stats = in.Stats
 		res.Solver = in.solver.Stats
+		if in.isolver != nil {
+			res.IntSolver = in.isolver.Stats
+		}
 		res.Inconclusive = in.Stats.Inconclusive
 		for f := range in.callLog {
 			res.Functions = append(res.Functions, f)
@@ -271,12 +292,16 @@ func RunJob(p *Program, job Job, solverKind string, timeoutMs int) (res JobResul
 		return
 	}
 	in.callLog = map[string]bool{}
+	for _, v := range job.Prefix {
+		in.trace = append(in.trace, choice{v, v + 1})
+	}
+	minDepth := len(job.Prefix)
 	for {
 		in.resetPath()
 		in.runPath(fn, job.Args)
 		in.Stats.Paths++
 		// backtrack
-		for len(in.trace) > 0 {
+		for len(in.trace) > minDepth {
 			last := &in.trace[len(in.trace)-1]
 			if last.val+1 < last.arity {
 				last.val++
@@ -284,8 +309,29 @@ func RunJob(p *Program, job Job, solverKind string, timeoutMs int) (res JobResul
 			}
 			in.trace = in.trace[:len(in.trace)-1]
 		}
-		if len(in.trace) == 0 {
-			break
+		if len(in.trace) <= minDepth {
+			if len(in.trace) < minDepth || true {
+				break
+			}
+		}
+		// work splitting: hand the untried alternatives of the shallowest open choice to idle workers
+		if job.WantWork != nil && job.Spawn != nil && in.Stats.Paths%4 == 0 && job.WantWork() {
+			for k := minDepth; k < len(in.trace)-1; k++ {
+				c := &in.trace[k]
+				if c.val+1 < c.arity {
+					for alt := c.val + 1; alt < c.arity; alt++ {
+						nj := job
+						nj.Prefix = nil
+						for _, e := range in.trace[:k] {
+							nj.Prefix = append(nj.Prefix, e.val)
+						}
+						nj.Prefix = append(nj.Prefix, alt)
+						job.Spawn(nj)
+					}
+					c.arity = c.val + 1
+					break
+				}
+			}
 		}
 		if in.Stats.Paths >= cfg.MaxPaths {
 			in.inconclusive("path bound hit")
@@ -341,7 +387,7 @@ func (in *Interp) pathDone() {
 	for _, o := range in.Observes {
 		vars = append(vars, o.Term)
 	}
-	v, vals := in.solver.Check(in.pc, nil, vars)
+	v, vals := in.pickSolver(vars...).Check(in.pc, nil, vars)
 	if v != Sat || len(vals) != len(vars) {
 		return
 	}
